@@ -125,7 +125,15 @@ Items == <<
   \* 60: fP|cased: 'D'
   [field |-> <<102, 80>>, chain |-> <<<<99, 97, 115, 101, 100>>>>, vals |-> <<SS(<<68>>)>>, single |-> TRUE],
   \* 61: fxf|: 'v'
-  [field |-> <<102, 120, 102>>, chain |-> <<>>, vals |-> <<SS(<<118>>)>>, single |-> TRUE]
+  [field |-> <<102, 120, 102>>, chain |-> <<>>, vals |-> <<SS(<<118>>)>>, single |-> TRUE],
+  \* 62: n1|: '42'
+  [field |-> <<110, 49>>, chain |-> <<>>, vals |-> <<SS(<<52, 50>>)>>, single |-> TRUE],
+  \* 63: n2|: ['7', '-3', '08']
+  [field |-> <<110, 50>>, chain |-> <<>>, vals |-> <<SS(<<55>>), SS(<<45, 51>>), SS(<<48, 56>>)>>, single |-> FALSE],
+  \* 64: n3|: ['5', 'x*']
+  [field |-> <<110, 51>>, chain |-> <<>>, vals |-> <<SS(<<53>>), SS(<<120, 42>>)>>, single |-> FALSE],
+  \* 65: n4|contains: '12'
+  [field |-> <<110, 52>>, chain |-> <<<<99, 111, 110, 116, 97, 105, 110, 115>>>>, vals |-> <<SS(<<49, 50>>)>>, single |-> TRUE]
 >>
 KwLists == <<
   <<SS(<<102, 111, 111>>), SS(<<98, 97, 42, 114>>)>>,
